@@ -21,6 +21,7 @@ CONSTANTS Classes,     \* subset of {"cbc10", "tls12", "tls13"}
           UploadRounds, UploadSizes, \* k, n: "k times (write n bytes; the receiver sends a KeyUpdate)" as ONE step
           MaxBurst,    \* how many such macro steps per scenario
           DynChoices,  \* subset of BOOLEAN: dynamic record sizing on / off (chosen in Init)
+          PadSizes, PadLens, MaxPad,  \* a padding peer: data sizes, padding lengths (99999: pad the record to 2^14 - 1), how often
           HalfOps,     \* subset of {"CW", "WD"}: CloseWrite / a passed write deadline (the side keeps reading)
           MaxHalf,
           Paths        \* TRUE: the history is part of the state (every path is a scenario)
@@ -35,7 +36,7 @@ Init ==
   /\ st = IF class = "nil" THEN InitForged(ClassProfile("tls12"), FALSE)
           ELSE IF Forged THEN InitForged(WithDyn(ClassProfile(class), dyn), TRUE) ELSE InitLive(WithDyn(ClassProfile(class), dyn))
   /\ hist = <<>>
-  /\ cnt = [w |-> 0, ku |-> 0, mut |-> 0, cl |-> 0, ks |-> 0, b |-> 0, h |-> 0]
+  /\ cnt = [w |-> 0, ku |-> 0, mut |-> 0, cl |-> 0, ks |-> 0, b |-> 0, h |-> 0, p |-> 0]
 
 \* (\E r \in {e} : ... evaluates e once; TLC re-evaluates a LET definition at every use)
 Step(r, h, c) == r.ok /\ st' = r.s /\ hist' = Append(hist, h) /\ cnt' = c /\ UNCHANGED <<class, dyn>>
@@ -85,6 +86,10 @@ Mixed(x, n, req, k) == /\ cnt.b < MaxBurst /\ st.q.ku /\ Usable(st, x)
                        /\ st' = MixedTimes(st, x, n, req, k)
                        /\ hist' = Append(hist, [op |-> "UPS", x |-> x, n |-> n, req |-> req, k |-> k])
                        /\ cnt' = [cnt EXCEPT !.b = @ + 1] /\ UNCHANGED <<class, dyn>>
+PadLen(n, pad) == IF pad = 99999 THEN MaxPlain - 1 - n ELSE pad
+WritePadded(x, n, pad) == /\ cnt.p < MaxPad /\ st.q.ku /\ Usable(st, x)
+                          /\ \E r \in {DoWritePadded(st, x, n, PadLen(n, pad))} :
+                                Step(r, [op |-> "WP", x |-> x, n |-> n, pad |-> PadLen(n, pad)], [cnt EXCEPT !.p = @ + 1])
 CloseWriteOp(x) == /\ "CW" \in HalfOps /\ cnt.h < MaxHalf /\ Usable(st, x)
                    /\ \E r \in {DoCloseWrite(st, x, TRUE)} : Step(r, [op |-> "CW", x |-> x], [cnt EXCEPT !.h = @ + 1])
 WriteDeadlineOp(x) == /\ "WD" \in HalfOps /\ cnt.h < MaxHalf /\ Usable(st, x)
@@ -115,6 +120,7 @@ Next ==
      \/ \E x \in Sides, n \in UploadSizes, req \in BOOLEAN, k \in UploadRounds : Upload(x, n, req, k)
      \/ \E x \in Sides, n \in UploadSizes, req \in BOOLEAN, k \in UploadRounds : HalfOps # {} /\ Mixed(x, n, req, k)
      \/ \E x \in Sides : CloseWriteOp(x) \/ WriteDeadlineOp(x)
+     \/ \E x \in Sides, n \in PadSizes, pad \in PadLens : WritePadded(x, n, pad)
 
 Spec == Init /\ [][Next]_vars
 
